@@ -329,6 +329,7 @@ static void solvePhase(vh::Rng &r, Scene &sc, vpsc::Dim dim, int rounds, long am
     g_dim = (int) dim;
     {
         topology::TopologyConstraints t(dim, sc.nodes, sc.edges, nullptr, vs, cs);
+        printState("construct", (int) dim, sc.nodes, sc.edges);
         for (int round = 0; round < rounds && budget > 0; ++round) {
             int mode = (int) r.range(0, 3);
             unsigned drag = r.range(0, n - 1);
@@ -653,13 +654,13 @@ static void dragPass(Scene &sc, vpsc::Dim dim, const std::vector<double> &des, c
     vpsc::Constraints cs;
     g_dim = (int) dim;
     {
-        topology::TopologyConstraints t(dim, sc.nodes, sc.edges, nullptr, vs, cs);
         printf("D %d", (int) dim);
-        for (unsigned i = 0; i < n; ++i) {
-            vs[i]->desiredPosition = des[i]; vs[i]->weight = wts[i];
-            printf(" %s %s", hx(des[i]).c_str(), hx(wts[i]).c_str());
-        }
+        for (unsigned i = 0; i < n; ++i) printf(" %s %s", hx(des[i]).c_str(), hx(wts[i]).c_str());
         printf("\n"); fflush(stdout);
+        topology::TopologyConstraints t(dim, sc.nodes, sc.edges, nullptr, vs, cs);
+        // the constructor has run PruneDegenerate over every path: nothing moved, paths may have lost points
+        printState("construct", (int) dim, sc.nodes, sc.edges);
+        for (unsigned i = 0; i < n; ++i) { vs[i]->desiredPosition = des[i]; vs[i]->weight = wts[i]; }
         int loop = 100; bool again;
         do { again = t.solve(); printState("solve", (int) dim, sc.nodes, sc.edges); --budget; } while (again && --loop > 0 && budget > 0);
     }
@@ -840,6 +841,113 @@ static void sceneCyclesCase(vh::Rng &r, bool thorough) {
         dragPass(sc, dim, des, w, budget);
     }
 }
+
+// ------------------------------------------------------------------ corner-on-corner end states
+//
+// scene-corner-coincide: two nodes in TOUCHING rows - N lies in the row directly above M
+// (N.minY == M.maxY exactly), so N can slide over M - and an edge A -> B that passes the point
+// X = M.TL. N is dragged along its row to grid positions; the position in which N's BR corner lies
+// EXACTLY on X (N.maxX == M.minX: a corner on a corner, the two bend points of the path coincide,
+// the segment between them has length zero) is chosen with high probability. Every pass constructs
+// a fresh TopologyConstraints (as ColaTopologyAddon::moveTo does), so PruneDegenerate sees the
+// degenerate state the previous pass ended in; passes in the other axis, passes in which nothing
+// moves and passes that drag M are mixed in. The state the constructor leaves is dumped
+// ("S construct") and compared with Model/TopoPrune.lean by the driver.
+//   geometry 0: the turn A -> X -> B goes round M (initial path A -> M.TL -> B); a bend at N.BR is
+//               only genuine while N straddles X
+//   geometry 1: the turn goes round N (initial path A -> N.BR -> B); a bend at M.TL is only genuine
+//               while N.BR is to the right of X
+//   start 0: N to the left of X   start 1: N.BR on X, path A -> M.TL -> N.BR -> B built directly
+//   start 2: N straddles X, path A -> M.TL -> N.BR -> B
+// The canonical picture goes through a random symmetry of the square (all four diagonal
+// arrangements of the two nodes, both slide axes) and the path is listed from A or from B (which of
+// the two coincident points comes first).
+struct SymInv {
+    Sym s;
+    void inv(double &x, double &y) const { if (s.my) y = -y; if (s.mx) x = -x; if (s.tr) std::swap(x, y); }
+    // actual rectangle -> canonical (minX,maxX,minY,maxY)
+    void rect(const vpsc::Rectangle *r, double out[4]) const {
+        double ax = r->getMinX(), ay = r->getMinY(), bx = r->getMaxX(), by = r->getMaxY();
+        inv(ax, ay); inv(bx, by);
+        out[0] = std::min(ax, bx); out[1] = std::max(ax, bx); out[2] = std::min(ay, by); out[3] = std::max(ay, by);
+    }
+    vpsc::Dim dim(int canon) const { return ((canon == 0) != s.tr) ? vpsc::XDIM : vpsc::YDIM; }
+    // canonical coordinate v on canonical axis `canon` -> actual coordinate on dim(canon)
+    double coord(int canon, double v) const {
+        double x = canon == 0 ? v : 0, y = canon == 0 ? 0 : v;
+        s.pt(x, y);
+        return dim(canon) == vpsc::XDIM ? x : y;
+    }
+};
+
+static void sceneCornerCoincideCase(vh::Rng &r, bool thorough) {
+    Scene sc;
+    SymInv si; si.s.tr = r.coin(); si.s.mx = r.coin(); si.s.my = r.coin();
+    const Sym &sym = si.s;
+    double q[4];
+    int geom = r.coin() ? 0 : 1, start = (int) r.range(0, 2);
+    bool reversed = r.coin();
+    double mh = 10.0 * r.range(2, 4), mw = 10.0 * r.range(3, 6), nw = 10.0 * r.range(2, 5), nh = 10.0 * r.range(2, 3);
+    double ax = 0, ay = 0, bx = 0, by = 0;
+    bool found = false;
+    for (int tries = 0; tries < 200 && !found; ++tries) {
+        ax = 5.0 * r.range(4, 17); ay = 5.0 * r.range(-12, (long) (mh - 10) / 5);
+        bx = 100 + 5.0 * r.range(6, 30); by = mh + nh + 10 + 5.0 * r.range(0, 16);
+        double turn = (100 - ax) * (by - mh) - (mh - ay) * (bx - 100);        // < 0: right turn at X (round M)
+        found = geom == 0 ? turn < 0 : turn > 0;
+    }
+    double n1 = start == 0 ? 100 - 10.0 * r.range(1, 4) : start == 1 ? 100 : 100 + 5.0 * r.range(1, 3);   // N.maxX
+    if (found && geom == 1 && start == 0) {
+        // the initial bend is at N.BR = (n1, mh): it has to be a left turn there as well
+        found = (n1 - ax) * (by - mh) - (mh - ay) * (bx - n1) > 0 && ax + 10 <= n1 - 5;
+    }
+    sym.rect(ax - 10, ax + 10, ay - 10, ay + 10, q); sc.addNode(q[0], q[1], q[2], q[3]);     // 0 = A
+    sym.rect(bx - 10, bx + 10, by - 10, by + 10, q); sc.addNode(q[0], q[1], q[2], q[3]);     // 1 = B
+    sym.rect(100, 100 + mw, 0, mh, q);               sc.addNode(q[0], q[1], q[2], q[3]);     // 2 = M
+    sym.rect(n1 - nw, n1, mh, mh + nh, q);           sc.addNode(q[0], q[1], q[2], q[3]);     // 3 = N
+    std::vector<std::pair<unsigned, int> > pts;
+    pts.push_back(std::make_pair(0u, (int) EP::CENTRE));
+    if (start > 0 || geom == 0) pts.push_back(std::make_pair(2u, sym.corner(EP::TL)));
+    if (start > 0 || geom == 1) pts.push_back(std::make_pair(3u, sym.corner(EP::BR)));
+    pts.push_back(std::make_pair(1u, (int) EP::CENTRE));
+    if (reversed) std::reverse(pts.begin(), pts.end());
+    if (found && pathValid(sc, pts)) addEdge(sc, pts, 100);
+    printf("X geom %d start %d reversed %d sym %d%d%d\n", geom, start, (int) reversed, (int) sym.tr, (int) sym.mx, (int) sym.my);
+    printHeader(sc);
+    if (sc.edges.empty()) return;
+    unsigned n = sc.nodes.size();
+    int budget = thorough ? 200 : 120;
+    int passes = (int) r.range(2, thorough ? 7 : 5);
+    for (int ps = 0; ps < passes && budget > 0; ++ps) {
+        int kind = (int) r.range(0, 9);          // 0-5 slide N, 6 no-op, 7 other-axis N, 8-9 drag M / A / B
+        int canon = 0;
+        unsigned id = 3;
+        double target = 0;                        // canonical centre coordinate on axis `canon`
+        bool move = true;
+        double c[4];
+        if (kind <= 5) {
+            si.rect(sc.rs[2], c); double mLeft = c[0];
+            si.rect(sc.rs[3], c);
+            double off = r.coin(2, 5) ? 0 : 5.0 * r.range(-6, 6);
+            if (ps == 0 && start == 1) off = 5.0 * r.range(-6, 6);      // leave the coincidence straight away
+            target = mLeft + off - (c[1] - c[0]) / 2;
+        } else if (kind == 6) {
+            move = false; canon = r.coin() ? 0 : 1;
+        } else {
+            canon = kind == 7 ? 1 : (int) r.range(0, 1);
+            id = kind == 7 ? 3u : (unsigned) r.range(0, 2);
+            si.rect(sc.rs[id], c);
+            double cur = canon == 0 ? (c[0] + c[1]) / 2 : (c[2] + c[3]) / 2;
+            target = cur + 5.0 * r.range(-6, 6);
+        }
+        vpsc::Dim dim = si.dim(canon);
+        std::vector<double> des(n), w(n, 1.0);
+        for (unsigned i = 0; i < n; ++i) des[i] = sc.rs[i]->getCentreD(dim);
+        if (move) { des[id] = si.coord(canon, target); w[id] = 10000; }
+        dragPass(sc, dim, des, w, budget);
+    }
+}
+
 
 // ------------------------------------------------------------------ ConstrainedFDLayout + addon
 
@@ -1053,6 +1161,14 @@ int main(int argc, char **argv) {
         vh::Rng r = vh::caseRng(a.seed, k);
         vh::beginCase(k, "scene-cycles");
         runIsolated([&]() { sceneCyclesCase(r, thorough); });
+        vh::endCase();
+    }
+    long nCoin = (thorough ? 500 : 100) * a.scale;
+    for (long c = 0; c < nCoin; ++c, ++k) {
+        if (!a.want(k)) continue;
+        vh::Rng r = vh::caseRng(a.seed, k);
+        vh::beginCase(k, "scene-corner-coincide");
+        runIsolated([&]() { sceneCornerCoincideCase(r, thorough); });
         vh::endCase();
     }
     return 0;
